@@ -371,6 +371,145 @@ def run_grid(ctx):
             shutil.rmtree(g.basedir, ignore_errors=True)
 
 
+def pack_entry(name, ro, rwcapdata=b"", md=b"{}"):
+    from allmydata.util.netstring import netstring
+    return netstring(netstring(name.encode("utf-8")) + netstring(ro) + netstring(rwcapdata) + netstring(md))
+
+
+def list_sync(dirnode):
+    """DirectoryNode.list() of a directory whose contents need no grid (DIR2-LIT): ('ok', children) | ('exc', name)"""
+    from twisted.python.failure import Failure
+    res = []
+    dirnode.list().addBoth(res.append)
+    if not res:
+        return ("exc", "NotSynchronous")
+    if isinstance(res[0], Failure):
+        return ("exc", res[0].type.__name__)
+    return ("ok", res[0])
+
+
+def unpack_with(rc, flavour, packed):
+    """children of a hand-crafted directory of the given flavour, as a reader without write key sees them"""
+    from allmydata.util import base32
+    try:
+        if flavour == "CHK":
+            return ("ok", rc.di_r._unpack_contents(packed))
+        if flavour == "SSKRO":
+            return ("ok", rc.dr._unpack_contents(packed))
+    except (ValueError, AttributeError) as e:
+        return ("exc", type(e).__name__)
+    how, deep = {"LIT": (b"", False), "LIT-imm": (b"imm.", False), "LIT-ro": (b"ro.", False), "LIT-deep": (b"", True)}[flavour]
+    cap = how + b"URI:DIR2-LIT:" + base32.b2a(packed)
+    d = rc.mk().create_from_cap(None, cap, deep_immutable=deep)
+    assert type(d).__name__ == "DirectoryNode", d
+    return list_sync(d)
+
+
+IMM_FLAVOURS = ("LIT", "LIT-imm", "LIT-ro", "LIT-deep", "CHK")
+
+
+def judge_immutable_child(ctx, flavour, kind, child, case):
+    """a child obtained through an immutable directory must not be mutable / writeable / expose a write uri;
+    an unknown child must be alleged imm."""
+    sig = "deep-immutable-not-transitive:%s:%s" % (flavour, kind)
+    if type(child).__name__ == "UnknownNode":
+        if child.get_write_uri() is not None or child.error is not None or \
+                not (child.get_readonly_uri() or b"imm.").startswith(b"imm."):
+            ctx.violation("unknown child of an immutable directory is not imm.-alleged / has a rw_uri", case, sig,
+                          {"child": show_unknown(child)})
+        return
+    bad = child.is_mutable() or (hasattr(child, "is_readonly") and not child.is_readonly()) or \
+        (hasattr(child, "get_write_uri") and child.get_write_uri() is not None)
+    if bad:
+        ctx.violation("child obtained through an immutable (%s) directory is mutable or writeable" % flavour, case, sig,
+                      {"child": show_node(child)})
+
+
+def run_immutable_dirs(ctx, objs, rng, corpus):
+    """Hand-crafted directories of both immutable flavours (DIR2-LIT from packed bytes inside the cap string, opened
+    plainly / with imm. / with ro. / with deep_immutable=True; DIR2-CHK through _unpack_contents of a stub-grid node)
+    and of a mutable directory read through its read cap, containing every child kind in the ro slot
+    (unprefixed, ro., imm., unknown formats, trailing spaces) and entries with non-empty rwcapdata."""
+    from allmydata.util import base32
+    rc = RoSlotContext(rng)
+    per = 1 if corpus else ctx.budget(2, 30)
+    entries = []                      # (kind label, ro slot bytes)
+    for (tag, is_dir), cs in sorted(by_kind(objs).items()):
+        for c in cs[:per]:
+            s = c.to_string()
+            k = ("D" if is_dir else "F") + tag
+            for pre in (b"", b"ro.", b"imm."):
+                entries.append((k, pre + s))
+            if corpus or rng.random() < 0.2:
+                entries.append((k, s + b"  "))
+    for u in UNKNOWN_RWS + [b"x-tahoe-future-test-mutable:zz"]:
+        for pre in (b"", b"ro.", b"imm."):
+            entries.append(("unknown", pre + u))
+    entries.append(("empty", b""))
+    lines, impl, cases = [], [], []
+    flavours = IMM_FLAVOURS + ("SSKRO",)
+    for kind, ro in entries:
+        for flavour in flavours:
+            for rwcap in (b"", b"x" * 50):
+                if rwcap and not (corpus or rng.random() < 0.15):
+                    continue
+                case = {"flavour": flavour, "child_kind": kind, "ro": hx(ro), "rwcapdata": bool(rwcap)}
+                st, res = unpack_with(rc, flavour, pack_entry(u"c", ro, rwcap))
+                if st == "exc":
+                    out = {"ValueError": "VALUEERROR", "AttributeError": "CRASH"}.get(res, "EXC " + res)
+                elif u"c" not in res:
+                    out = "DROPPED"
+                else:
+                    child = res[u"c"][0]
+                    out = "CHILD %s auth=%s" % (show_node(child), node_authority(child))
+                    if flavour in IMM_FLAVOURS:
+                        judge_immutable_child(ctx, flavour, kind, child, case)
+                if flavour in IMM_FLAVOURS and rwcap and out != "VALUEERROR":
+                    ctx.violation("entry with non-empty rwcapdata accepted in an immutable (%s) directory" % flavour, case,
+                                  "deep-immutable-not-transitive:%s:rwcapdata" % flavour, {"got": out})
+                model_kind = {"CHK": "CHK", "SSKRO": "SSKRO"}.get(flavour, "LIT")
+                lines.append("unp %s %s %d" % (model_kind, hx(ro), 1 if rwcap else 0))
+                impl.append(out)
+                cases.append(case)
+                ctx.case(("unp", flavour, ro, bool(rwcap)) if ro else None)
+                ctx.count("unp:" + out.split()[0])
+    ctx.compare("DirectoryNode._unpack_contents of one hand-crafted entry (both immutable flavours, read-only mutable)",
+                cases, impl, ctx.model(lines))
+
+    # nested: a literal directory L2 holding mutable caps, inside a literal directory L1, inside (a) a DIR2-CHK
+    # directory, (b) a mutable directory listed through its read cap; and every child kind at once in one listing
+    def lit_dir(packed):
+        return b"URI:DIR2-LIT:" + base32.b2a(packed)
+    by = {("D" if d else "F") + t: cs[0].to_string() for (t, d), cs in by_kind(objs).items()}
+    leaves = [("FSSK", by["FSSK"]), ("FSSKRO", by["FSSKRO"]), ("FMDMF", b"ro." + by["FMDMF"]), ("DSSK", by["DSSK"]),
+              ("DMDMFRO", by["DMDMFRO"]), ("FCHK", by["FCHK"]), ("unknown", b"x-future:abc")]
+    l2 = lit_dir(b"".join(pack_entry(u"leaf%d" % i, ro) for i, (_, ro) in enumerate(leaves)))
+    l1 = lit_dir(pack_entry(u"l2", l2) + pack_entry(u"w", by["FSSK"]))
+    outer = pack_entry(u"l1", l1) + pack_entry(u"l2", b"imm." + l2)
+
+    def walk(dirnode, path, flavour):
+        st, res = list_sync(dirnode)
+        if st != "ok":
+            return
+        for name, (child, _md) in sorted(res.items()):
+            case = {"nested": path + [name], "flavour": flavour}
+            ctx.case(("nested", flavour, tuple(path + [name])))
+            kind = dict((u"leaf%d" % i, k) for i, (k, _) in enumerate(leaves)).get(name, "DLIT" if name in (u"l1", u"l2") else "FSSK")
+            judge_immutable_child(ctx, flavour + "-nested", kind, child, case)
+            if type(child).__name__ == "DirectoryNode":
+                walk(child, path + [name], flavour)
+    for flavour in ("CHK", "SSKRO"):
+        st, res = unpack_with(rc, flavour, outer)
+        if st != "ok":
+            continue
+        for name, (child, _md) in sorted(res.items()):
+            if flavour == "CHK":
+                judge_immutable_child(ctx, "CHK-nested", "DLIT", child, {"nested": [name], "flavour": flavour})
+            if type(child).__name__ == "DirectoryNode":
+                walk(child, [name], flavour)     # below a literal directory everything is deep-immutable
+    ctx.count("nested-walks")
+
+
 def show_node(node):
     if type(node).__name__ == "UnknownNode":
         return "U " + show_unknown(node)
@@ -593,6 +732,7 @@ def _run(ctx, rng, corpus):
             ctx.count("cfc:" + out.split()[0] + (":" + out.split()[1] if out[0] == "K" else ""))
     ctx.compare("UnknownNode(rw, ro, deep) and create_from_cap(w, r, deep)", cases, impl, ctx.model(lines))
     run_histories(ctx, objs, rng, corpus)
+    run_immutable_dirs(ctx, objs, rng, corpus)
     if corpus:
         run_grid(ctx)
     ctx.sample({"cap": U.describe(objs[0]), "att": impl_att(objs[0])})
